@@ -603,6 +603,63 @@ def Filt.fittedParams : Filt α → α → List (α × α × α)
 
 end deepen3
 
+/-! ## Deepening round D — the glue of `calibrate_force` (argument validation, filter choice) -/
+
+section deepen4
+variable {α : Type} [RealLike α]
+open RealLike
+
+/-- the keyword arguments of `lk.calibrate_force` that decide which model and filter are built -/
+structure CalibArgs (α : Type) where
+  o : Opts α
+  drag : Option α
+  fixedD : Option α
+  fixedA : Option α
+  active : Bool
+  /-- `driving_data is not None and driving_data.size > 0` -/
+  hasDriving : Bool
+  guess : Option α
+
+/-- Python truthiness of an optional float (`if drag:`) -/
+def optTruthy : Option α → Bool
+  | some g => truthy g
+  | none => false
+
+/-- the `raise ValueError` statements of `calibrate_force`, in the order the code executes them -/
+def calibValidate (a : CalibArgs α) : Option Err :=
+  if a.active && a.o.axial then some .value
+  else if a.active && optTruthy a.drag then some .value
+  else if (a.fixedD.isSome || a.fixedA.isSome) && a.o.fast then some .value
+  else if a.active && !a.hasDriving then some .value
+  else if a.active && (match a.guess with
+      | none => true
+      | some g => !truthy g || lt g 0.0) then some .value
+  else none
+
+/-- the filter the fit ends up with: `FixedDiodeModel` replaces the constructor's choice as soon as
+    one of `fixed_diode`, `fixed_alpha` is given; otherwise `NoFilter` for a fast sensor, else
+    `DiodeModel` -/
+def chooseFilter (a : CalibArgs α) : Filt α :=
+  if a.fixedD.isSome || a.fixedA.isSome then .fixed a.fixedD a.fixedA
+  else if a.o.fast then .noFilter else .diode
+
+/-- `calibrate_force` up to (not including) the power spectrum and the fit: validation, model
+    construction (`ActiveCalibrationModel` passes `axial=False`), `_set_drag`, filter choice -/
+def calibSetup (a : CalibArgs α) : Except Err (Mdl α × Filt α) :=
+  match calibValidate a with
+  | some e => .error e
+  | none =>
+    match mkModel (if a.active then { a.o with axial := false } else a.o) with
+    | .error e => .error e
+    | .ok m =>
+      let m := if optTruthy a.drag then m.setDrag (a.drag.getD 0.0) else m
+      let flt := chooseFilter a
+      match flt.validate with
+      | some e => .error e
+      | none => .ok (m, flt)
+
+end deepen4
+
 /-! ## Line protocol -/
 
 def optFloat? (s : String) : Option (Option Float) :=
@@ -822,6 +879,22 @@ def handle : List String → Option String
         let ps := flt.fittedParams rate
         some ("ok " ++ showFloatList (ps.map (·.1)) ++ " " ++ showFloatList (ps.map (·.2.1)) ++ " " ++
           showFloatList (ps.map (·.2.2)))
+    | _ => none
+  | "c11.calibsetup" :: rest => do
+    let (o, drag, rest) ← parseOpts? rest
+    match rest with
+    | [fd, al, active, hasDriving, guess] =>
+      let fd ← optFloat? fd; let al ← optFloat? al
+      let active ← bool? active; let hasDriving ← bool? hasDriving; let guess ← optFloat? guess
+      match calibSetup { o, drag, fixedD := fd, fixedA := al, active, hasDriving, guess } with
+      | .error e => some e.name
+      | .ok (_, flt) =>
+        let status : Option Float → String := fun x => match x with | some v => "fixed=" ++ showFloat v | none => "fitted"
+        let shape := match flt with
+          | .noFilter => "absent absent"
+          | .diode => "fitted fitted"
+          | .fixed a b => status a ++ " " ++ status b
+        some s!"ok {shape} {2 + (flt.fittedParams 2.0).length}"
     | _ => none
   | _ => none
 
